@@ -83,7 +83,7 @@ def conn_run(C, args, outdir):
         return {"error": "connharness failed: " + o[-2000:]}
     ops = open(os.path.join(outdir, "ops.txt")).read()
     rc, mo = C.sh([os.path.join(C.LEAN, ".lake/build/bin/conndriver")], inp=ops, timeout=1800)
-    impl = open(os.path.join(outdir, "impl.txt")).read().splitlines()
+    impl = open(os.path.join(outdir, "impl.txt"), errors="replace").read().splitlines()
     model = mo.splitlines()
     opl = ops.splitlines()
     res = json.load(open(os.path.join(outdir, "result.json")))
@@ -157,7 +157,7 @@ def run_evm_engine(prop, reg, tier, seed, workdir, replay, C):
             continue
         ops = open(os.path.join(d, "ops.txt")).read()
         rc, mo = C.sh([os.path.join(C.LEAN, ".lake/build/bin/evmdriver")], inp=ops, timeout=3000)
-        impl = open(os.path.join(d, "impl.txt")).read().splitlines()
+        impl = open(os.path.join(d, "impl.txt"), errors="replace").read().splitlines()
         model = mo.splitlines()
         opl = ops.splitlines()
         r = json.load(open(os.path.join(d, "result.json")))
